@@ -295,6 +295,12 @@ def Decoder.reset (d : Decoder σ) (s : Src) : Decoder σ × Out Src :=
   | .keep e => (d, .err e)
   | .replace st o => ({ d with state := some st }, o)
 
+/-- `FrameDecoder::add_dict(dict)`: `self.dicts.insert(dict.id, dict)` — a `BTreeMap` keyed by the id, so a
+dictionary registered earlier under the same id is replaced (the list keeps the latest first and
+`find?` returns it) -/
+def Decoder.addDict (d : Decoder σ) (dict : Dict σ) : Decoder σ :=
+  { d with dicts := dict :: d.dicts.filter (fun x => x.id ≠ dict.id) }
+
 /-- `FrameDecoder::force_dict(id)`: seed the current frame's state from a registered dictionary -/
 def Decoder.forceDict (d : Decoder σ) (id : Nat) : Decoder σ × Out Unit :=
   match d.state with
@@ -680,6 +686,25 @@ def decodeAllLoop : Nat → Decoder σ → Src → Nat → Array Nat → Decoder
 
 def Decoder.decodeAll (d : Decoder σ) (s : Src) (room : Nat) : Decoder σ × Out (Array Nat) :=
   decodeAllLoop (s.length + 1) d s room #[]
+
+/-- `decode_all_to_vec(input, output)`: `vec` = the vector's content (`output.len()` bytes), `room` its
+spare capacity (`capacity() − len()`; a `Vec` never has `capacity < len`).  Returns the vector's content
+afterwards.  Statement by statement: `output.resize(cap, 0)`; `decode_all(input, &mut output[len..])`;
+on `Ok(n)` `output.resize(min(len + n, cap), 0)`, on `Err` `output.resize(len, 0)` — both are
+truncations of the resized vector, whose first `len` bytes `decode_all` cannot touch (it is handed
+the slice behind them) and whose next `n` bytes are the bytes `decode_all` wrote. -/
+def Decoder.decodeAllToVec (d : Decoder σ) (s : Src) (vec : Array Nat) (room : Nat) :
+    Decoder σ × Array Nat × Out Unit :=
+  let len := vec.size
+  let cap := len + room
+  let resized := vec ++ Array.replicate (cap - len) 0
+  match d.decodeAll s (resized.size - len) with
+  | (d', .ok out) =>
+    -- the target slice `output[len..]` now starts with the `out.size` bytes written
+    let after := resized.extract 0 len ++ out ++ resized.extract (len + out.size) resized.size
+    (d', after.extract 0 (min (len + out.size) cap), .ok ())
+  | (d', .err e) => (d', resized.extract 0 len, .err e)      -- whatever was written behind `len` is cut off
+  | (d', .fault f) => (d', resized.extract 0 len, .fault f)
 
 /-! ### streaming front end -/
 
